@@ -267,3 +267,23 @@ Print Assumptions C09_symtable_old_refuted.
 Theorem C09_symtable_named : symtable_ok sym_table = true.
 Proof. vm_compute. reflexivity. Qed.
 Print Assumptions C09_symtable_named.
+
+(* ------------------------------------------------------------------------------------------------
+   THE TIE TO THE SOURCE for the index helpers.  gen/GenCode.v is regenerated on every run from the bodies of
+   find_end_subtree_from_i and find_id_args_from_i in utils/__init__.py (harness/translate_code.py; semantics
+   of the subset: theories/Py.v).  Whenever the model above yields a result (it yields None exactly for an
+   out-of-range read), the generated definition yields the same result. *)
+From TF Require Import Py CodeEqC09.
+From TFG Require Import GenCode.
+
+Theorem C09_code_find_end_subtree_from_i : forall a (index e : nat) ds,
+  find_end a index = Some e ->
+  py_find_end_subtree_from_i (Z.of_nat index) (zs a) ds = Some (Z.of_nat e, ds).
+Proof. exact code_find_end_subtree_from_i. Qed.
+Print Assumptions C09_code_find_end_subtree_from_i.
+
+Theorem C09_code_find_id_args_from_i : forall a (index : nat) r ds,
+  find_args a index = Some r ->
+  py_find_id_args_from_i (Z.of_nat index) (zs a) ds = Some (zs r, ds).
+Proof. exact code_find_id_args_from_i. Qed.
+Print Assumptions C09_code_find_id_args_from_i.
